@@ -29,14 +29,24 @@ from cobra.core.gene import GPR  # noqa: E402
 from cobra.manipulation.delete import remove_genes  # noqa: E402
 
 WORDS = ["a", "b", "G1", "x_y", "if", "for", "in", "None", "1", "22", "3a", "lambda", "B0", "and1", "OR2", "is", "c", "d"]
+# every keyword the code escapes (table regenerated from the source) is a possible gene id, alone or as part of one
+try:
+    KEYWORDS = sorted(set(translate_gpr.extract()[1]))
+except Exception:
+    KEYWORDS = []
 SPECIALS = [".", "-", ":", "/", "'", '"', "=", "\\"]
 
 
 def gen_id(rng):
     n = rng.choice([0, 0, 0, 1, 1, 2])
-    s = rng.choice(WORDS)
+
+    def word():
+        if KEYWORDS and rng.random() < 0.25:
+            return rng.choice(KEYWORDS)
+        return rng.choice(WORDS)
+    s = word()
     for _ in range(n):
-        s += rng.choice(SPECIALS) + rng.choice(WORDS)
+        s += rng.choice(SPECIALS) + word()
     return s
 
 
@@ -246,6 +256,17 @@ def oracle_remove_genes(rng, genes):
     present = sorted(g.id for g in m.genes)
     if not present:
         return fails, None
+    # observe every rule before the removal (comparison, symbolic form): later answers must not depend on it
+    before = {}
+    with warnings.catch_warnings():
+        warnings.simplefilter("ignore")
+        for r in rxns:
+            try:
+                before[r.id] = r.gpr.copy()
+                r.gpr == GPR.from_string(r.gene_reaction_rule)
+                r.gpr.as_symbolic()
+            except Exception as e:
+                fails.append(f"observing {r.id} raised {type(e).__name__}")
     ks = rng.sample(present, rng.randint(1, min(3, len(present))))
     rr = rng.random() < 0.5
     case = {"rules": {k: spell_plain(v) for k, v in trees.items()}, "remove": ks, "remove_reactions": rr}
@@ -272,6 +293,20 @@ def oracle_remove_genes(rng, genes):
             fails.append(f"{rid}: rule {r.gene_reaction_rule!r} is not equivalent to {spell_plain(t)!r} with {ks} absent")
         if set(r.gpr.genes) & set(ks):
             fails.append(f"{rid}: removed gene still in rule")
+        with warnings.catch_warnings():
+            warnings.simplefilter("ignore")
+            try:
+                again = GPR.from_string(r.gene_reaction_rule)
+                if not (r.gpr == again):
+                    fails.append(f"{rid}: rule does not compare equal to its own text parsed again after the removal")
+                rt = GPR.from_symbolic(r.gpr.as_symbolic())
+                if not same_function(lambda ko: rt.eval(ko), rt.genes, lambda ko: r.gpr.eval(ko), r.gpr.genes) or set(rt.genes) != set(r.gpr.genes):
+                    fails.append(f"{rid}: symbolic round trip after the removal is a different rule")
+                old = before.get(rid)
+                if old is not None and (r.gpr == old) and not same_function(lambda ko: old.eval(ko), old.genes, lambda ko: r.gpr.eval(ko), r.gpr.genes):
+                    fails.append(f"{rid}: rule compares equal to the rule before the removal although they differ as Boolean functions")
+            except Exception as e:
+                fails.append(f"{rid}: comparison after removal raised {type(e).__name__}: {e}")
         if {x.id for x in r.genes} != set(r.gpr.genes):
             fails.append(f"{rid}: reaction.genes {sorted(x.id for x in r.genes)} != genes of the rule {sorted(r.gpr.genes)}")
     for k in ks:
@@ -388,7 +423,7 @@ def run(ctx: Ctx) -> int:
             msg = oracle_eq_pair(t1, t2)
             if msg:
                 ctx.violations.append({"engine": "oracle on GPR.__eq__", "failures": [msg]})
-        for _ in range(max(1, len(cases) // 100)):
+        for _ in range(max(1, len(cases) // 25)):
             genes = list({gen_id(rng) for _ in range(rng.randint(2, 5))})
             fails, case = oracle_remove_genes(rng, genes)
             stats["remove"] += 1
